@@ -167,6 +167,9 @@ type zzRetrier struct {
 	lastURL  string
 	urls     []string
 	outcomes int
+	// discovery got an answer naming a leader / some request failed after that
+	discovered           bool
+	failedAfterDiscovery bool
 }
 
 var zzLastURL string
@@ -181,6 +184,9 @@ func zzURLParse(raw string) (*url.URL, error) { return &url.URL{Path: raw}, nil 
 func zzURLString(u *url.URL) string          { return u.Path }
 
 func (r *zzRetrier) DoReq(req *RetriableRequest) (*http.Response, error) {
+	if !rt.Symbolic() {
+		zzLastURL = req.URL.String() // natively the request is the real one
+	}
 	r.calls++
 	if r.calls > r.bound {
 		rt.Assert(false, "call-terminates-within-bound")
@@ -193,8 +199,16 @@ func (r *zzRetrier) DoReq(req *RetriableRequest) (*http.Response, error) {
 		rt.Assert(ok, "write-goes-to-current-primary-only")
 		rt.Reach("write-sent")
 	}
-	switch rt.Choose(fmt.Sprintf("outcome%d", r.calls), r.outcomes) {
+	isShards := len(zzLastURL) >= 12 && zzLastURL[len(zzLastURL)-12:] == "/info/shards"
+	o := rt.Choose(fmt.Sprintf("outcome%d", r.calls), r.outcomes)
+	if o != 0 && r.discovered {
+		r.failedAfterDiscovery = true
+	}
+	switch o {
 	case 0:
+		if isShards && zzNextShards != nil {
+			r.discovered = true
+		}
 		return &http.Response{StatusCode: 200, Body: &zzBody{data: r.body()}}, nil
 	case 1:
 		return nil, errors.New("connection refused")
@@ -322,6 +336,14 @@ func ZZC20Write() {
 		last := r.urls[len(r.urls)-1]
 		rt.Assert(c.topology.primary != nil && last == c.topology.primary.url+"/events", "successful-write-was-to-the-primary")
 	}
+	// convergence: once discovery has named a leader and that leader answers, the write reaches it
+	if r.discovered && !r.failedAfterDiscovery {
+		rt.Assert(err == nil, "write-converges-on-the-discovered-leader")
+		if err == nil {
+			rt.Assert(r.urls[len(r.urls)-1] == leader+"/events", "write-sent-to-the-discovered-leader")
+		}
+		rt.Reach("converged")
+	}
 }
 
 // ZZC20Read: reads terminate and only go to live permitted endpoints.
@@ -360,7 +382,7 @@ func zzHTTPDo(c *http.Client, req *http.Request) (*http.Response, error) {
 	case 1:
 		return nil, errors.New("connection refused")
 	}
-	return &http.Response{StatusCode: 503, Body: http.NoBody}, nil
+	return &http.Response{StatusCode: 503, Body: &zzBody{data: []byte("busy")}}, nil
 }
 
 func ZZC20Retrier() {
